@@ -20,7 +20,7 @@ MANIFEST = dict(
          'values, cancels, switches, ready-callback order shuffled) against the model driver - every GeckoConfig member after each '
          'switch, the wake time of every sleeper, the state of the shared future - plus the facade rule on real GeckoPump / '
          'GeckoBlower / GeckoAsyncFacade objects; direct monitors on the real code with timer jitter on.'
-         ' Since session 3: the facade rule is exercised on facades built by the real constructor, observing the live table (with the opposite table installed beforehand), and over histories of real facades (reconnect with a pump running, external mode switch, ticks). config_change_state_inventory: the facade keeps no remembered mode.',
+         ' Since session 3: the facade rule is exercised on facades built by the real constructor, observing the live table (with the opposite table installed beforehand), and over histories of real facades (reconnect with a pump running, external mode switch, ticks). config_change_state_inventory: the facade keeps no remembered mode. Device changes arrive as misaligned 2-byte words and refresh segments.',
     note='Partial: the timing clauses are theorems about the tick model (time = integer milliseconds of the virtual clock); real '
          'timer skew of an event loop is outside, the jittered runs only bound it. Assumed: asyncio.wait(timeout=) semantics, one '
          'event loop (the module-level future is foreign to a second loop), cancellation delivered at the next suspension point. '
@@ -540,7 +540,20 @@ def _real_history(ops, snapshot="default.snapshot"):
                         w = (w & ~(acc.bitmask << acc.bitpos)) | (idx << acc.bitpos)
                     else:
                         w = idx
-                    spa.struct.replace_status_block_segment(acc.pos, w.to_bytes(acc.length, "big"))
+                    # how the spa's change reaches the client: a patch of exactly the item's bytes (a set-value echo), a 2-byte partial
+                    # update word that STARTS one byte before the item or at it, or a refresh of a whole region around it
+                    how = op[3] if len(op) > 3 else "own"
+                    nb = bytearray(blk)
+                    nb[acc.pos:acc.pos + acc.length] = w.to_bytes(acc.length, "big")
+                    if how == "word-before" and acc.pos >= 1:
+                        lo, hi = acc.pos - 1, min(1024, acc.pos - 1 + max(2, acc.length + 1))
+                    elif how == "word-at":
+                        lo, hi = acc.pos, min(1024, acc.pos + max(2, acc.length))
+                    elif how == "refresh":
+                        lo, hi = max(0, acc.pos - 37), min(1024, acc.pos + 64)
+                    else:
+                        lo, hi = acc.pos, acc.pos + acc.length
+                    spa.struct.replace_status_block_segment(lo, bytes(nb[lo:hi]))
                     must = d.is_on != before            # the device's state changed: the facade has been notified
             elif op[0] == "ext":
                 cfg.set_config_mode(bool(op[1]))
@@ -562,11 +575,12 @@ def facade_histories(ctx):
         [["tick"], ["ext", True], ["tick"], ["set", 0, True], ["ext", False], ["tick"]],  # somebody else switches the mode
         [["set", 0, True], ["new"], ["tick"], ["set", 0, False], ["new"], ["tick"]],
     ]
+    hs += [[["set", i, True, how], ["set", i, False, how]] for how in ("word-before", "word-at", "refresh") for i in range(4)]
     for _ in range(12 if ctx.quick else 150):
         h = []
         for _ in range(rng.randint(3, 14)):
             r = rng.random()
-            h.append(["set", rng.randrange(4), rng.random() < 0.5] if r < 0.5 else ["tick"] if r < 0.7 else ["new"] if r < 0.85 else ["ext", rng.random() < 0.5])
+            h.append(["set", rng.randrange(4), rng.random() < 0.5, rng.choice(["own", "word-before", "word-at", "refresh"])] if r < 0.5 else ["tick"] if r < 0.7 else ["new"] if r < 0.85 else ["ext", rng.random() < 0.5])
         hs.append(h)
     return hs
 
